@@ -16,7 +16,7 @@ pub struct EnumResult {
     pub cases: u64,
     pub steps: u64,
     pub distinct: u64,
-    pub violation: Option<(String, String)>, // (case description, message)
+    pub violations: Vec<(String, String)>, // (case description, message)
     pub samples: Vec<String>,
 }
 
@@ -105,6 +105,63 @@ where
     Ok(obs)
 }
 
+/// Same programs on an `ArcSwap<Pair>` (no None) where the first cache is read through the
+/// `cache::Access` trait (generic code path) instead of the inherent method.
+fn run_cache_program_trait<S>(prog: &[COp]) -> Result<u64, String>
+where
+    S: Strategy<Arc<Pair>> + Default,
+{
+    let pool: Vec<Arc<Pair>> = (1..=3u32).map(|i| Arc::new(Pair { id: i, twice: 2 * i })).collect();
+    let sw: ArcSwapAny<Arc<Pair>, S> = ArcSwapAny::new(pool[0].clone());
+    let mut cur: u8 = 1;
+    let mut c0 = Cache::new(&sw);
+    let mut c1: Option<Cache<&ArcSwapAny<Arc<Pair>, S>, Arc<Pair>>> = None;
+    let mut held = [1u8, 255];
+    let mut obs: u64 = 0;
+    fn through_trait<A: CacheAccess<Pair>>(a: &mut A) -> u32 {
+        a.load().id
+    }
+    for (i, op) in prog.iter().enumerate() {
+        match *op {
+            COp::Store(v) => {
+                let v = v.max(1);
+                sw.store(pool[v as usize - 1].clone());
+                cur = v;
+            }
+            COp::MakeClone => {
+                c1 = Some(c0.clone());
+                held[1] = held[0];
+            }
+            COp::Load(k) => {
+                let (got, idx) = match k {
+                    0 | 2 => (through_trait(&mut c0) as u8, 0),
+                    _ => match c1.as_mut() {
+                        Some(c) => (through_trait(c) as u8, 1),
+                        None => continue,
+                    },
+                };
+                if got != cur {
+                    return Err(format!(
+                        "step {}: cache {} read through the Access trait returned value {} but the container holds {}",
+                        i, idx, got, cur
+                    ));
+                }
+                held[idx] = cur;
+                obs = obs * 5 + got as u64;
+            }
+        }
+        for v in 1..=3u8 {
+            let expect = 1 + (cur == v) as usize + held.iter().filter(|h| **h == v).count();
+            let strong = Arc::strong_count(&pool[v as usize - 1]);
+            let slots = arc_swap::verif::slots_holding(Arc::as_ptr(&pool[v as usize - 1]) as usize);
+            if strong + slots != expect {
+                return Err(format!("step {} {:?}: value {} has strong count {} (+{} slots) but {} owners", i, op, v, strong, slots, expect));
+            }
+        }
+    }
+    Ok(obs)
+}
+
 pub fn c16(depth: usize) -> EnumResult {
     let alphabet = [
         COp::Store(0),
@@ -116,7 +173,7 @@ pub fn c16(depth: usize) -> EnumResult {
         COp::Load(2),
         COp::MakeClone,
     ];
-    let mut res = EnumResult { cases: 0, steps: 0, distinct: 0, violation: None, samples: vec![] };
+    let mut res = EnumResult { cases: 0, steps: 0, distinct: 0, violations: vec![], samples: vec![] };
     let mut outcomes = std::collections::HashSet::new();
     let mut prog: Vec<usize> = Vec::new();
     // all programs of length 1..=depth (odometer)
@@ -127,7 +184,11 @@ pub fn c16(depth: usize) -> EnumResult {
             let p: Vec<COp> = prog.iter().map(|&i| alphabet[i]).collect();
             // programs with more than one MakeClone add nothing
             if p.iter().filter(|o| **o == COp::MakeClone).count() <= 1 {
-                for (name, r) in [("DefaultStrategy", run_cache_program::<DefaultStrategy>(&p)), ("FillFastSlots", run_cache_program::<NoFast>(&p))] {
+                for (name, r) in [
+                    ("DefaultStrategy", run_cache_program::<DefaultStrategy>(&p)),
+                    ("FillFastSlots", run_cache_program::<NoFast>(&p)),
+                    ("DefaultStrategy/Access-trait", run_cache_program_trait::<DefaultStrategy>(&p)),
+                ] {
                     res.cases += 1;
                     res.steps += len as u64;
                     match r {
@@ -135,7 +196,7 @@ pub fn c16(depth: usize) -> EnumResult {
                             outcomes.insert((o, len));
                         }
                         Err(e) => {
-                            res.violation = Some((format!("[{}] {:?}", name, p), e));
+                            res.violations.push((format!("[{}] {:?}", name, p), e));
                             return res;
                         }
                     }
@@ -176,7 +237,7 @@ pub fn c16(depth: usize) -> EnumResult {
 // ------------------------------------------------------------------------------------------
 // C17: Access / Map projections
 
-#[derive(Debug)]
+#[derive(Debug, Clone)]
 pub struct Inner {
     pub id2: u32,
 }
@@ -236,7 +297,7 @@ where
 }
 
 pub fn c17(max_stores: usize) -> EnumResult {
-    let mut res = EnumResult { cases: 0, steps: 0, distinct: 0, violation: None, samples: vec![] };
+    let mut res = EnumResult { cases: 0, steps: 0, distinct: 0, violations: vec![], samples: vec![] };
     let mut outcomes = std::collections::HashSet::new();
     for start in 1..=2u32 {
         for k1 in 0..=max_stores {
@@ -251,9 +312,7 @@ pub fn c17(max_stores: usize) -> EnumResult {
                             outcomes.insert((name.to_string(), o));
                         }
                         Err(e) => {
-                            if res.violation.is_none() {
-                                res.violation = Some((format!("{} start={} stores={}+{}", name, start, k1, k2), e));
-                            }
+                            res.violations.push((format!("{} start={} stores={}+{}", name, start, k1, k2), e));
                         }
                     }
                 };
@@ -308,6 +367,17 @@ pub fn c17(max_stores: usize) -> EnumResult {
                         "static vs dynamic dispatch",
                         if a == b2 { Ok(a as u64) } else { Err(format!("static dispatch projects {} but dynamic dispatch {}", a, b2)) },
                     );
+                }
+                // 7b. projections that stay on the smart-pointer level / point into the guard itself
+                {
+                    let m = Map::new(&sw, |a: &Arc<Pt>| a);
+                    run("Map with Arc-level projection", access_case("Map with Arc-level projection", &sw, &m, &|g| g.id, k1, k2, None));
+                    let mm = Map::new(Map::new(&sw, |a: &Arc<Pt>| a), |a: &Arc<Pt>| &a.inner);
+                    run("Map of Arc-level Map", access_case("Map of Arc-level Map", &sw, &mm, &|g| g.id2, k1, k2, None));
+                    let mc = Map::new(Constant(Inner { id2: 77 }), |i: &Inner| &i.id2);
+                    run("Map over Constant", access_case("Map over Constant", &sw, &mc, &|g| **g, k1, k2, Some(77)));
+                    let bc: Box<dyn DynAccess<u32>> = Box::new(Map::new(Constant(Inner { id2: 77 }), |i: &Inner| &i.id2));
+                    run("dyn Map over Constant", access_case("dyn Map over Constant", &sw, &bc, &|g| **g, k1, k2, Some(77)));
                 }
                 // 8. Constant
                 {
@@ -512,7 +582,7 @@ where
 }
 
 pub fn c18() -> EnumResult {
-    let mut res = EnumResult { cases: 0, steps: 0, distinct: 0, violation: None, samples: vec![] };
+    let mut res = EnumResult { cases: 0, steps: 0, distinct: 0, violations: vec![], samples: vec![] };
     let slots = arc_swap_verif_rt::cfg::DEBT_SLOT_CNT;
     for inject in ["rcu-closure", "rcu-closure-after-alloc", "store-dtor", "cas-rejected-dtor", "cas-current-guard-dtor", "guard-drop-dtor"] {
         for g in [0usize, 1, slots + 1] {
@@ -531,9 +601,7 @@ pub fn c18() -> EnumResult {
                 res.steps += 6;
                 res.distinct += 1;
                 if let Err(e) = r {
-                    if res.violation.is_none() {
-                        res.violation = Some((format!("{} inject={} guards_held={}", name, inject, g), e));
-                    }
+                    res.violations.push((format!("{} inject={} guards_held={}", name, inject, g), e));
                 }
             }
         }
@@ -576,9 +644,7 @@ pub fn c18() -> EnumResult {
             Ok(())
         })();
         if let Err(e) = ok {
-            if res.violation.is_none() {
-                res.violation = Some(("Map projection panics".into(), e));
-            }
+            res.violations.push(("Map projection panics".into(), e));
         }
     }
     res.samples.push("DefaultStrategy: hold 3 guards; rcu(|_| panic!()); container unchanged, counts exact, later swap works".into());
@@ -714,7 +780,7 @@ fn c20_tokens() -> Result<u64, String> {
 }
 
 pub fn c20(depth: usize) -> EnumResult {
-    let mut res = EnumResult { cases: 0, steps: 0, distinct: 0, violation: None, samples: vec![] };
+    let mut res = EnumResult { cases: 0, steps: 0, distinct: 0, violations: vec![], samples: vec![] };
     let all = shapes(depth);
     let mut distinct = std::collections::HashSet::new();
     for v in &all {
@@ -723,23 +789,101 @@ pub fn c20(depth: usize) -> EnumResult {
             res.cases += 1;
             res.steps += 9;
             if let Err(e) = r {
-                if res.violation.is_none() {
-                    res.violation = Some((format!("{} value={:?}", name, v), e));
-                }
+                res.violations.push((format!("{} value={:?}", name, v), e));
             }
         }
     }
     match c20_tokens() {
         Ok(n) => res.cases += n,
         Err(e) => {
-            if res.violation.is_none() {
-                res.violation = Some(("serde_test token streams".into(), e));
-            }
+            res.violations.push(("serde_test token streams".into(), e));
         }
     }
     res.distinct = distinct.len() as u64;
     for v in all.iter().rev().take(2) {
         res.samples.push(format!("{:?}", v));
     }
+    res
+}
+
+// ------------------------------------------------------------------------------------------
+// C12 (sequential part): one allocation reachable through containers of different pointer kinds
+
+/// A guard is taken from a container of kind X, a container of kind Y holding a pointer to the
+/// same allocation is written, the guard is dropped; strong and weak counts must be what the
+/// owners explain.
+pub fn c12_cross_kind() -> EnumResult {
+    use std::sync::Weak;
+    let mut res = EnumResult { cases: 0, steps: 0, distinct: 0, violations: vec![], samples: vec![] };
+    let mut fail = |res: &mut EnumResult, case: &str, msg: String| {
+        res.violations.push((case.to_string(), msg));
+    };
+    for guards in [1usize, arc_swap_verif_rt::cfg::DEBT_SLOT_CNT + 1] {
+        // (reader kind, writer kind)
+        for (rk, wk) in [("Arc", "Arc"), ("Arc", "Option<Arc>"), ("Option<Arc>", "Arc"), ("Arc", "Weak"), ("Weak", "Arc"), ("Weak", "Weak")] {
+            res.cases += 1;
+            res.steps += 5;
+            res.distinct += 1;
+            let case = format!("guard from a container of {} / store into a container of {} holding the same allocation / guards={}", rk, wk, guards);
+            let a = Arc::new(5u32);
+            let other = Arc::new(6u32);
+            let arc_c = ArcSwap::from(a.clone());
+            let opt_c = ArcSwapOption::from(Some(a.clone()));
+            let weak_c: ArcSwapAny<Weak<u32>> = ArcSwapAny::new(Arc::downgrade(&a));
+            let strong0 = Arc::strong_count(&a);
+            let weak0 = Arc::weak_count(&a);
+            let r = catch_unwind(AssertUnwindSafe(|| {
+                enum G {
+                    A(Guard<Arc<u32>>),
+                    O(Guard<Option<Arc<u32>>>),
+                    W(Guard<Weak<u32>>),
+                }
+                let gs: Vec<G> = (0..guards)
+                    .map(|_| match rk {
+                        "Arc" => G::A(arc_c.load()),
+                        "Option<Arc>" => G::O(opt_c.load()),
+                        _ => G::W(weak_c.load()),
+                    })
+                    .collect();
+                match wk {
+                    "Arc" => arc_c.store(other.clone()),
+                    "Option<Arc>" => opt_c.store(None),
+                    _ => weak_c.store(Weak::new()),
+                }
+                drop(gs);
+            }));
+            if r.is_err() {
+                fail(&mut res, &case, "panicked".into());
+                continue;
+            }
+            let (ds, dw) = match wk {
+                "Arc" | "Option<Arc>" => (1usize, 0usize),
+                _ => (0, 1),
+            };
+            let strong = Arc::strong_count(&a);
+            let weak = Arc::weak_count(&a);
+            if strong != strong0 - ds || weak != weak0 - dw {
+                fail(
+                    &mut res,
+                    &case,
+                    format!(
+                        "strong/weak counts are {}/{} afterwards, the owners explain {}/{} (a debt taken through one pointer kind was paid or returned as another kind)",
+                        strong,
+                        weak,
+                        strong0 - ds,
+                        weak0 - dw
+                    ),
+                );
+            }
+            // leak everything that may now be inconsistent instead of crashing on drop
+            if res.violations.iter().any(|(c, _)| *c == case) {
+                std::mem::forget(arc_c);
+                std::mem::forget(opt_c);
+                std::mem::forget(weak_c);
+                std::mem::forget(a);
+            }
+        }
+    }
+    res.samples.push("g = ArcSwap<u32>.load(); ArcSwapWeak<u32> (same allocation).store(Weak::new()); drop(g); counts".into());
     res
 }
